@@ -55,6 +55,12 @@ def _bump(draw, v):
         return draw(st.sampled_from([v + 1.0, v - 1.0, v + 0.25, v * (1 + 8e-10) if v else 1e-300,
                                      v * (1 - 8e-10) if v else -1e-300]))
     if isinstance(v, str):
+        import unicodedata
+        twin = unicodedata.normalize("NFD", v)
+        if twin == v:
+            twin = unicodedata.normalize("NFC", v)
+        if twin != v and draw(st.booleans()):
+            return twin         # the same text on screen, other code points: another value
         return v + "a" if draw(st.booleans()) or not v else v[:-1]
     if isinstance(v, bytes):
         return v + b"\0"
@@ -121,7 +127,7 @@ def _vary_here(draw, s):
     if t == "str":
         if "value" in s or "pattern" in s:
             k = "value" if "value" in s else "pattern"
-            s[k] = s[k] + "a"
+            s[k] = _bump(draw, s[k]) if k == "value" and s[k] else s[k] + "a"
             for extra in ("len", "alphabet", "substr"):
                 s.pop(extra, None)
             s["order"] = []
@@ -492,6 +498,26 @@ def check(case, ctx):
         if e != ok:
             raise Violation("schema-eq-value", f"({S!r} == {p!r}) is {e} but validate says "
                                                f"{'no errors' if ok else 'errors'}")
+    # the same value object compared again after the caller edited it in place: the answer follows the value
+    for p, ok in zip(probes, vS):
+        if ok and type(p) in (list, dict):
+            q = copy.deepcopy(p)
+            if _eq(S, q, "schema==value") is not True:
+                break
+            if type(q) is list:
+                q.append({"edited": q[:1]})
+            else:
+                q[("edited", len(q))] = [None]
+            try:
+                now = not validate(S, copy.deepcopy(q)).has_errors()
+            except Exception:  # noqa
+                break
+            again = _eq(S, q, "schema==value")
+            if again != now:
+                raise Violation("schema-eq-value", f"({S!r} == value) is {again} after the value was edited in place to {q!r}, "
+                                                   f"validate says {'no errors' if now else 'errors'}")
+            ctx.label("compared-again-after-in-place-edit")
+            break
     if vS != vS1:
         raise Violation("equal-but-verdicts-differ", f"{S!r} == {S1!r} yet verdicts differ on {probes!r}")
     from d42 import substitute
